@@ -349,4 +349,5 @@ def build():
     world.trusted_notes.append("dataclasses.replace(a, **ch) is the opaque relation replaced_with(a, ch, b): a new object of a's class whose init fields are a's own values except those named in ch (it may raise)")
     world.trusted_notes.append("all_dup(xs, ys) -- element-wise is_dup with equal length -- is opaque: the induction hypothesis of duplicate() over a tuple's elements")
     world.trusted_notes.append('is_dup is defined by its introduction rule only (replaced_with and changes_ok imply is_dup); finite trees')
+    world.trusted_notes.append('distinct_field_names / field_kinds_ok (a class has distinct field names; a child field holds a node, None or a tuple of nodes) are assumed of EVERY node, so the recursive summary duplicate#callee does not re-require them for the children')
     return world, lib, reg, lem
